@@ -825,6 +825,19 @@ func c01Grammar(r *Run) {
 					r.Bad("grammar/endianness", key, c.body.Instrs[0].Pos(), strings.Join(notes, "; "))
 				}
 				cev, cwant := canonEvents(role, ev), canonEvents(role, want)
+				// a pointer clause may re-dispatch to the value clause (`e.encode(*v)`) or do that clause's work on *v
+				// directly (a shared helper `e.encodeDir(*v)`): the value clause's layout with *v for v
+				if strings.Join(cev, " ") != strings.Join(cwant, " ") && strings.HasPrefix(k, "*") && role != "decode" {
+					if wantV, knownV := expectedEvents(role, strings.TrimPrefix(k, "*")); knownV {
+						var alt []string
+						for _, e := range wantV {
+							alt = append(alt, substV(e, "*v"))
+						}
+						if calt := canonEvents(role, alt); strings.Join(cev, " ") == strings.Join(calt, " ") {
+							cwant, want = calt, alt
+						}
+					}
+				}
 				if strings.Join(cev, " ") == strings.Join(cwant, " ") {
 					r.Ok("grammar/layout", key, c.body.Instrs[0].Pos(), strings.Join(cev, " "))
 				} else {
